@@ -72,6 +72,12 @@ def wellformed_case(kind, opts, body_sig, body_vals, flags, last_serial):
     if raw[0:1] != b'l':
         return '%s: endianness byte %r' % (what, raw[0:1]), last_serial
     try:
+        f = header_types_ok(raw, what)
+    except Exception as e:
+        f = '%s: the header fields cannot be read from the wire (%s: %s)' % (what, type(e).__name__, e)
+    if f:
+        return f, last_serial
+    try:
         vals, n = W.decode(HDR, raw, 0, True)
     except Exception as e:
         return '%s: fixed header / field array do not decode per the specification: %s' % (what, e), last_serial
@@ -259,6 +265,32 @@ def invalid_name_cases():
     return None
 
 
+FIELD_TYPES = {1: 'o', 2: 's', 3: 's', 4: 's', 5: 'u', 6: 's', 7: 's', 8: 'g', 9: 'u'}          # DBus specification, table of header fields
+
+
+def header_field_types(raw):
+    """{field code: signature of the variant carrying it} read from the wire bytes of a message"""
+    import struct
+    le = raw[:1] == b'l'
+    n = struct.unpack_from(('<' if le else '>') + 'I', raw, 12)[0]
+    pos, end, out = 16, 16 + n, {}
+    while pos < end:
+        pos += len(W.pad(pos, 8))
+        code = raw[pos]
+        sg, p2 = W.dec1('g', raw, pos + 1, le)
+        p2 += len(W.pad(p2, W.ALIGN[sg[0]]))
+        _v, pos = W.dec1(sg, raw, p2, le)
+        out[code] = sg
+    return out
+
+
+def header_types_ok(raw, what):
+    for code, sg in header_field_types(raw).items():
+        if code in FIELD_TYPES and sg != FIELD_TYPES[code]:
+            return '%s: header field %d is written as a variant of type %r, the specification prescribes %r' % (what, code, sg, FIELD_TYPES[code])
+    return None
+
+
 def descriptor_header_cases():
     """the unix_fds header appears exactly once in a message that carries descriptors - however many such messages were built
     before - and never in one that carries none"""
@@ -270,6 +302,14 @@ def descriptor_header_cases():
         codes = [c for c, _v in vals[6]]
         if codes.count(9) != 1 or len(set(codes)) != len(codes):
             return 'descriptor-carrying call #%d has header field codes %r' % (round_ + 1, codes)
+        f = header_types_ok(m.rawMessage, 'descriptor-carrying call #%d' % (round_ + 1))
+        if f:
+            return f
+        # several descriptors, nested in an array (only method calls are built with descriptors by the library)
+        mm = message.MethodCallMessage('/p', 'M', destination='a.b', signature='ahs', body=[[3, 4, 5], 'x'], oobFDs=[])
+        f = header_types_ok(mm.rawMessage, 'a call carrying three descriptors')
+        if f:
+            return f
         plain = message.MethodCallMessage('/p', 'M', interface='a.b', signature='s', body=['x'])
         vals, _ = W.decode(HDR, plain.rawMessage, 0, True)
         codes = [c for c, _v in vals[6]]
